@@ -198,7 +198,9 @@ pub fn resolve_once(
     comp.ops.borrow_mut().clear();
     comp.compiles = 0;
     comp.overrun = false;
-    comp.round_limit = Some(max_rounds.max(3).saturating_add(2 + 3));
+    // never more than 2000 compile rounds, whatever the cap: a loop that no longer awaits the store
+    // would otherwise spin inside one poll where the executor cannot reach it
+    comp.round_limit = Some(max_rounds.max(3).saturating_add(2 + 3).min(2000));
     let store = SimStore::new(w);
     let any = AnyTir::V1Beta0(tx.clone());
     let (end, stats) = {
